@@ -24,6 +24,6 @@ func Run(r *ev.Run) {
 	if r.Thorough() {
 		b = 3
 	}
-	pivreg.Run(r, b, deadline(r))
+	pivreg.RunBasic(r, b, deadline(r))
 	runTwoSessions(r)
 }
